@@ -116,3 +116,11 @@ package keeper
 //@ loop 0: invariant forall a Addr, key Str :: wfLock(Store_restake, a, key)
 //@ loop 1: invariant forall a Addr, key Str :: wfLock(Store_restake, a, key)
 //@ loop 2: invariant totalStakes == coinsSum(data.Stakes, #i)
+
+// C16: the parameter record has one writer, and it stores validated parameters only: the stored allowed-denom list never
+// names a denom twice (what makes "sum over the list" the sum over the allowed denoms in GetStakedPower)
+//@ func (k Keeper) SetParams
+//@ modifies Store_restake
+//@ ensures err == nil ==> Store_restake == store(old(Store_restake), types.ParamsKey, enc(p))
+//@ ensures err == nil ==> (forall i Int, j Int :: 0 <= i && i < j && j < len(rparams(Store_restake).AllowedDenoms) ==> rparams(Store_restake).AllowedDenoms[i] != rparams(Store_restake).AllowedDenoms[j])
+//@ ensures err != nil ==> Store_restake == old(Store_restake)
